@@ -329,9 +329,12 @@ func checkContainsEq(w *World, c *Check, pr *prover, name string, contains, item
 			}
 		}
 	}
+	skip := containsSkipsElements(w, eqCalls)
 	switch {
 	case !good:
 		c.bad("C13.eq", name+".Contains", w.FuncPos(contains), name+".Contains does not decide membership by ItemsEqual / IRI.Equals between a list element and its argument")
+	case skip != "":
+		c.bad("C13.eq", name+".Contains", w.FuncPos(contains), name+".Contains "+skip)
 	case !trueOK:
 		c.bad("C13.eq", name+".Contains", w.FuncPos(contains), name+".Contains can return true without the equality test having succeeded")
 	default:
@@ -541,7 +544,15 @@ func checkC14(w *World, c *Check, tier string) {
 				found = true
 			}
 		}
-		if found {
+		var eqs []*ssa.Call
+		for _, call := range callsIn(ic) {
+			if call.Common().StaticCallee() == eq {
+				eqs = append(eqs, call)
+			}
+		}
+		if skip := containsSkipsElements(w, eqs); found && skip != "" {
+			c.bad("C14.contains", "IRIs.Contains", w.FuncPos(ic), "IRIs.Contains "+skip+": membership no longer agrees with IRI.Equals for the IRIs the filter gets wrong")
+		} else if found {
 			c.ok("C14.contains", "IRIs.Contains", w.FuncPos(ic), "membership decided by IRI.Equals")
 		} else {
 			c.bad("C14.contains", "IRIs.Contains", w.FuncPos(ic), "IRIs.Contains does not decide membership through IRI.Equals")
@@ -1285,6 +1296,98 @@ func foldsFirstTwoParams(f *ssa.Function) bool {
 			if (from(a, f.Params[0], 0) && from(b, f.Params[1], 0)) || (from(a, f.Params[1], 0) && from(b, f.Params[0], 0)) {
 				return true
 			}
+		}
+	}
+	return false
+}
+
+// containsSkipsElements: inside the loop that holds the equality test, some element can go round the loop without the
+// test having been applied to it, because a branch that is not a nil test of the element leads past it (a pre-filter
+// on host, type, length … that is "obviously" implied by equality — until the two notions of equality drift apart).
+// Returns a description, or "" when every element reaches the equality test.
+func containsSkipsElements(w *World, eqCalls []*ssa.Call) string {
+	for _, call := range eqCalls {
+		eb := call.Block()
+		f := eb.Parent()
+		lh := loopHeaders(f)
+		// innermost loop around the equality test
+		var h *ssa.BasicBlock
+		for cand := range lh[eb] {
+			if h == nil || len(loopBody(lh, cand)) < len(loopBody(lh, h)) {
+				h = cand
+			}
+		}
+		if h == nil {
+			continue
+		}
+		bypass := false
+		for _, n := range h.Preds {
+			if !lh[n][h] {
+				continue // loop entry
+			}
+			if n != eb && !eb.Dominates(n) {
+				bypass = true
+			}
+		}
+		if !bypass {
+			continue
+		}
+		// the branches inside the loop that decide whether the test is reached
+		for _, d := range loopBody(lh, h) {
+			if d == eb || !reachesWithin(d, eb, h) {
+				continue
+			}
+			iff, ok := d.Instrs[len(d.Instrs)-1].(*ssa.If)
+			if !ok {
+				continue
+			}
+			// does one side of this branch avoid the equality block yet stay in the loop?
+			avoids := false
+			for _, sc := range d.Succs {
+				if sc == h || (sc != eb && lh[sc][h] && !reachesWithin(sc, eb, h)) {
+					avoids = true
+				}
+			}
+			if !avoids {
+				continue
+			}
+			if d == h {
+				continue // the loop's own continuation test
+			}
+			if isNilTestCond(iff.Cond) {
+				continue
+			}
+			return fmt.Sprintf("skips list elements before the equality test: the branch at %s sends an element round the loop without comparing it (only a nil test of the element may do that)", w.InstrPos(iff))
+		}
+	}
+	return ""
+}
+
+func loopBody(lh map[*ssa.BasicBlock]map[*ssa.BasicBlock]bool, h *ssa.BasicBlock) []*ssa.BasicBlock {
+	var out []*ssa.BasicBlock
+	for b, hs := range lh {
+		if hs[h] {
+			out = append(out, b)
+		}
+	}
+	sort.Slice(out, func(i, j int) bool { return out[i].Index < out[j].Index })
+	return out
+}
+
+// isNilTestCond: x == nil, x != nil, IsNil(x) or its negation.
+func isNilTestCond(v ssa.Value) bool {
+	switch x := v.(type) {
+	case *ssa.UnOp:
+		if x.Op == token.NOT {
+			return isNilTestCond(x.X)
+		}
+	case *ssa.BinOp:
+		if (x.Op == token.EQL || x.Op == token.NEQ) && (isNilConst(x.X) || isNilConst(x.Y)) {
+			return true
+		}
+	case *ssa.Call:
+		if cal := x.Common().StaticCallee(); cal != nil && (cal.Name() == "IsNil" || cal.Name() == "IsNotNil") {
+			return true
 		}
 	}
 	return false
